@@ -8,7 +8,7 @@ sys.path.insert(0, driver.VERIF)
 mod = importlib.import_module(f"harness.{pid.lower()}")
 tier = sys.argv[5] if len(sys.argv) > 5 else "quick"
 task = mod.tasks(tier)[idx]
-task.setdefault("timeout_ms", 20000)
+task.setdefault("timeout_ms", int(__import__("os").environ.get("DBG_TIMEOUT_MS", "20000")))
 t = time.time()
 r = driver.run_path(f"harness.{pid.lower()}", task, prefix)
 r.pop("entered"); r.pop("hashes")
